@@ -17,22 +17,40 @@ def labelings(n):
            "strings": ["n%s" % chr(122 - i) for i in range(n)],
            "tuples": [(i % 2, -i) for i in range(n)],
            "mixed": [("a", 1), "b", 7, (2, 3), "zz", 0.5, -4, ("q",)][:n],
-           "L": [L("v%d" % i, (7 * i + 3) % 8) for i in range(n)]}
+           "L": [L("v%d" % i, (7 * i + 3) % 8) for i in range(n)],
+           "bigint": [1000 + 7 * i for i in range(n)]}
     out["perm"] = [(2 * i + 1) % n if n % 2 else (i + n // 2) % n for i in range(n)]
     if sorted(out["perm"]) != list(range(n)):
         out["perm"] = list(range(1, n)) + [0]
     return out
 
 
-def build(n, edges, labels, node_order, edge_order):
+def cp(x):
+    """An equal but not identical label object (as when an edge list is read from a file: every mention of a
+    node is a fresh string/tuple/number)."""
+    if isinstance(x, tuple):
+        return tuple([cp(y) for y in x])
+    if isinstance(x, str):
+        return "".join(list(x))
+    if isinstance(x, bool):
+        return x
+    if isinstance(x, int):
+        return int(str(x))
+    if isinstance(x, float):
+        return float(repr(x))
+    return x
+
+
+def build(n, edges, labels, node_order, edge_order, fresh=False):
     G = nx.Graph()
-    G.add_nodes_from(labels[i] for i in node_order)
+    c_ = cp if fresh else (lambda x: x)
+    G.add_nodes_from(c_(labels[i]) for i in node_order)
     for k in edge_order:
         u, v = edges[k]
         # attributes are defined on the structure (canonical edge / node), not on labels or order
-        G.add_edge(labels[u], labels[v], w=0.5 + 0.3 * k)
+        G.add_edge(c_(labels[u]), c_(labels[v]), w=0.5 + 0.3 * k)
     for c in range(n):
-        G.nodes[labels[c]]["rw"] = 0.6 + 0.25 * c
+        G.nodes[c_(labels[c])]["rw"] = 0.6 + 0.25 * c
     return G
 
 
@@ -70,6 +88,9 @@ def run_spec(spec, props=("C14",)):
     labs = labelings(n)
     for lname in spec["labelings"]:
         variants.append((lname, labs[lname], ident, list(range(len(edges)))))
+    # the same names, but every mention of a node is an equal-but-not-identical object
+    for lname in ("strings", "tuples", "bigint"):
+        variants.append((lname + "*fresh", labs[lname], ident, list(range(len(edges)))))
     for no in spec.get("node_orders", []):
         variants.append(("node_order", ident, list(no), list(range(len(edges)))))
     for eo in spec.get("edge_orders", []):
@@ -77,9 +98,10 @@ def run_spec(spec, props=("C14",)):
     for no in spec.get("both_orders", []):
         variants.append(("relabel+order", labs["strings"], list(no), list(reversed(range(len(edges))))))
 
-    def map_ic(ic, labels):
+    def map_ic(ic, labels, fresh=False):
+        c_ = cp if fresh else (lambda x: x)
         if ic[0] == "sets":
-            return ("sets", [labels[i] for i in ic[1]], [labels[i] for i in ic[2]])
+            return ("sets", [c_(labels[i]) for i in ic[1]], [c_(labels[i]) for i in ic[2]])
         return tuple(ic)
     tau, gamma = spec.get("tau", 0.6), spec.get("gamma", 0.7)
     grid = (0, 2, 5)
@@ -100,14 +122,15 @@ def run_spec(spec, props=("C14",)):
                     if not all(np.all(np.isfinite(a)) for a in ref):
                         continue
                     for (vname, labels, no, eo) in variants:
-                        G = build(n, edges, labels, no, eo)
+                        fresh = vname.endswith("*fresh")
+                        G = build(n, edges, labels, no, eo, fresh=fresh)
                         A.evals += 1
                         tag = "%s(%r, full=%s%s%s) on n=%d edges=%r relabelled %s %r node order %r" % (name, ic_c, full, ", nodelist" if use_nodelist else "", ", weighted" if wts else "", n, edges, vname, labels, no)
                         nl = None
                         if use_nodelist:
-                            nl = [labels[i] for i in reversed(no)]      # an explicit nodelist in yet another order
+                            nl = [(cp(labels[i]) if fresh else labels[i]) for i in reversed(no)]      # an explicit nodelist in yet another order
                         try:
-                            o = cat.call(EoN, name, G, map_ic(ic0, labels), tau, gamma, grid, full, nodelist=nl, tw=tw_, rw=rw_)
+                            o = cat.call(EoN, name, G, map_ic(ic0, labels, fresh), tau, gamma, grid, full, nodelist=nl, tw=tw_, rw=rw_)
                             if nl is not None:
                                 # rows follow the given nodelist
                                 H = nx.Graph(); H.add_nodes_from(nl)
@@ -143,12 +166,13 @@ def run_spec(spec, props=("C14",)):
         Tcontact = {(u, v): ((u * 3 + v * 5 + u * v) % 3) != 0 for u in range(n) for v in range(n)}
         I0 = ic0[1]; R0 = ic0[2]
 
-        def run_all(G, labels, Tdelay=Tdelay, Tdur=Tdur, suffix=""):
+        def run_all(G, labels, Tdelay=Tdelay, Tdur=Tdur, suffix="", fresh=False):
             inv = {}
             for c in range(n):
                 inv[labels[c]] = c
             outs = {}
-            i0 = [labels[i] for i in I0]; r0 = [labels[i] for i in R0]
+            c_ = cp if fresh else (lambda x: x)
+            i0 = [c_(labels[i]) for i in I0]; r0 = [c_(labels[i]) for i in R0]
             random.seed(1); np.random.seed(1)
             outs["discrete_SIR"] = EoN.discrete_SIR(G, test_transmission=lambda u, v: Tcontact[(inv[u], inv[v])], initial_infecteds=i0,
                                                    initial_recovereds=r0 or None, return_full_data=True)
@@ -174,20 +198,21 @@ def run_spec(spec, props=("C14",)):
         Tdelay4 = {(u, v): 1 for u in range(n) for v in range(n)}
         Tdur4 = {u: 1 + (u % 2) for u in range(n)}
 
-        def run_all(G, labels):
-            a = run1(G, labels)
+        def run_all(G, labels, fresh=False):
+            a = run1(G, labels, fresh=fresh)
             for k, (td, tu) in enumerate(((Tdelay2, Tdur2), (Tdelay3, Tdur3), (Tdelay4, Tdur4))):
-                b = run1(G, labels, td, tu, "[ties%d]" % (k + 1))
+                b = run1(G, labels, td, tu, "[ties%d]" % (k + 1), fresh=fresh)
                 b.pop("discrete_SIR[ties%d]" % (k + 1), None)
                 a.update(b)
             return a
         ref = run_all(G0, ident)
         for (vname, labels, no, eo) in variants:
-            G = build(n, edges, labels, no, eo)
+            fresh = vname.endswith("*fresh")
+            G = build(n, edges, labels, no, eo, fresh=fresh)
             A.evals += 1
             tag = "n=%d edges=%r I0=%r R0=%r relabelled %s %r node order %r edge order %r" % (n, edges, I0, R0, vname, labels, no, eo)
             try:
-                got = run_all(G, labels)
+                got = run_all(G, labels, fresh=fresh)
             except Exception as e:
                 A.add(V("C14", "simulators", vname, "exception", "%s raised %s: %s" % (tag, type(e).__name__, str(e)[:100]))); continue
             for k in ref:
